@@ -25,7 +25,7 @@ func (C08) Runs(t core.Tier) int {
 	if t == core.Thorough {
 		return 600_000
 	}
-	return 30_000
+	return 40_000
 }
 func (C08) Rule() string {
 	return "One run = twin sessions A and B over one generated history (definitions + up to 10 top-level statements). A receives failing statements: F2 unparsable text, F1 runtime errors of every class raised at top level, at call depth d, in loop iteration k, inside a generator or a generator of a generator, each embedded in a statement whose completed global prefix is known, and F3 aborts injected at the k-th fallible instruction of a statement that writes its global last. B receives the completed prefix instead (or nothing). Every later statement must give the same value, output and error class in A and B, and after every failure the machine must be at rest. Non-trivial = at least one fault fired at call depth >= 1 or inside a loop/generator and >= 2 statements ran after it. Distinct = hash of statement shapes, fault plan and context-switch traces."
